@@ -237,6 +237,7 @@ theorem inv_step (s : St) (op : Op) (h : Inv s) : Inv (step s op) := by
   | post mb msg g => exact inv_post s mb msg g h
   | release => exact inv_release s h
   | selfPost mb msg => exact inv_selfPost s mb msg h
+  | wait ms => exact h
 
 theorem inv_run (ops : List Op) : ∀ s, Inv s → Inv (runOps s ops) := by
   induction ops with
@@ -338,6 +339,7 @@ theorem full_run (ops : List Op) : ∀ s, Inv s → Full s → Full (runOps s op
     | post mb msg g => exact full_post s mb msg g hi h
     | release => exact full_release s h
     | selfPost mb msg => exact full_selfPost s mb msg h
+    | wait ms => exact h
 
 
 /-! ### the loop goroutine blocked on its own channel -/
@@ -415,6 +417,7 @@ theorem stuckinv_step (s : St) (op : Op) (hi : Inv s) (h : StuckInv s) : StuckIn
   | post mb msg g => exact stuckinv_post s mb msg g hi h
   | release => exact stuckinv_release s h
   | selfPost mb msg => exact stuckinv_selfPost s mb msg h
+  | wait ms => exact h
 
 theorem stuckinv_run (ops : List Op) : ∀ s, Inv s → StuckInv s → StuckInv (runOps s ops) := by
   induction ops with
@@ -425,6 +428,7 @@ theorem stuckinv_run (ops : List Op) : ∀ s, Inv s → StuckInv s → StuckInv 
 theorem stuck_step (s : St) (op : Op) (hs : s.stuck = true) (hg : s.gateMb ≠ none) :
     (step s op).stuck = true ∧ (step s op).gateMb ≠ none ∧ (step s op).ran = s.ran := by
   cases op with
+  | wait ms => exact ⟨hs, hg, rfl⟩
   | release =>
     have : release s = s := by unfold release; rw [if_pos hs]
     show (release s).stuck = true ∧ (release s).gateMb ≠ none ∧ (release s).ran = s.ran
@@ -487,6 +491,7 @@ def opMb : Op → Option Nat
   | .post mb _ _ => some mb
   | .selfPost mb _ => some mb
   | .release => none
+  | .wait _ => none
 
 /-- every operation addresses a mailbox with an id below `n` -/
 def OpsBelow (n : Nat) (ops : List Op) : Prop := ∀ o ∈ ops, ∀ mb, opMb o = some mb → mb < n
@@ -647,5 +652,7 @@ theorem small_run (n : Nat) (ops : List Op) : ∀ s, n ≤ s.cap → OpsBelow n 
       exact ih _ (by simpa [step] using hn) hb' (small_release n s h)
     | selfPost mb msg =>
       exact ih _ (by simpa [step] using hn) hb' (small_selfPost n s mb msg hn (ho mb rfl) h)
+    | wait ms =>
+      exact ih _ hn hb' h
 
 end Cell2v.SchedDisp
